@@ -20,6 +20,8 @@ ENGINES = [
      "kind_free_text": "independent EBNF transcription of ISO C99 Annex A.2 (+ documented C11), derivation-covering sentence generator"},
     {"name": "E3 genmodel", "path": "sa/genmodel.py", "serves_properties": ["C07", "C08"],
      "kind_free_text": "model of the C generator: per-field emission idioms, parenthesisation predicates evaluated over finite (class, operator, configuration) domains, grammar-level lattice"},
+    {"name": "E6 hdrscan", "path": "sa/hdrscan.py", "serves_properties": ["C19"],
+     "kind_free_text": "static scanner of the fake header tree as a preprocessor program (include graph, guards, presence conditions, macro tables) + model-based tokeniser"},
     {"name": "E4 astspec", "path": "sa/astspec.py", "serves_properties": ["C07", "C14", "C15"],
      "kind_free_text": "AST specification reader and node-class shape extractor"},
 ]
@@ -148,6 +150,15 @@ CHECKS = [
      "note": "Assumes CPython byte-code atomicity for thread-private objects; alias analysis is flow-insensitive may-alias "
              "inside a function; callers' own arguments are not shared state.",
      "technique": "write-effect and may-alias ownership analysis over the ast (custom checker)"},
+    {"id": "C19", "engine": "E6+E1+E2+E0", "level": "other",
+     "text": "The 129 shipped headers are analysed as a preprocessor program without running cpp: include closure under cpp's search order, include guards around every file with declarations, no conditional on a dialect-dependent macro and no identifier "
+             "that only the GNU dialects predefine, every header alone and every ordered pair (thorough: triples and all permutations of the non-stub files) is a sequence of complete declarations accepted by the grammar model extracted from the parser, "
+             "tokenised by the tokeniser model, with identifiers classified by the type names declared so far under their presence conditions; no cross-file macro capture; every declared type name stays usable; symbolic evaluation of the cpp command line "
+             "for the three argument forms; parse_file(use_cpp=True) is structurally parser.parse(preprocess_file(filename, cpp_path, cpp_args), filename).",
+     "design_ref": "DESIGN.md section 3, C19",
+     "note": "cpp and parse_file are never run: cpp's documented behaviour (search order, expansion, predefined macros per dialect) is trusted; acceptance by the grammar model is necessary, not sufficient, for acceptance by the parser (semantic predicates are free choices); "
+             "run-time equality with a by-hand pipeline is not executed.",
+     "technique": "static analysis of the header tree as a preprocessor program + model-based recognition of its declarations + symbolic evaluation of the command-line assembly"},
 ]
 _PENDING = "checker not yet built in this session (see DESIGN.md section 7 build order); no claim is made"
 NOT_APPLICABLE = [{"property_id": f"C{i:02d}", "reason": _PENDING} for i in range(1, 20) if f"C{i:02d}" not in {c["id"] for c in CHECKS}]
